@@ -40,7 +40,7 @@ Fixpoint prepare_loop (vt : variant) (s : scenario) (ps : list name) (st : fstat
   end.
 
 Definition prepare (vt : variant) (s : scenario) (st : fstate) : res fstate :=
-  prepare_loop vt s (sorted_procs vt s) st.
+  prepare_loop vt s (sorted_procs vt s) (set_scanned st).
 
 (* ---- Refresh (factory.go :92-118): all non-lazy definitions, names sorted -------------------------- *)
 
